@@ -442,6 +442,8 @@ def dynamic_half(ctx, viol, known, cov, ks):
     agg = {}
     for line in allk:
         base = re.sub(r" \(TestVerifC18\w*, GOMAXPROCS=\d+\)$", "", line)
+        base = re.sub(r"\b(seed|round|stoppers|iteration)[= ]\d+", r"\1=*", base)      # run parameters are in the evidence, not in the line
+        base = re.sub(r"(\[result-diff\][^:]*:[^:]*:? ?\w+).*", r"\1 ...", base)
         agg[base] = agg.get(base, 0) + 1
     for base, n in sorted(agg.items()):
         known.append("%s [reproduced in %d test processes]" % (base, n))
@@ -493,6 +495,28 @@ def run(ctx):
         for rec in st["pv_bad"]:
             viol.append(dict(what="package-level variable %s is written outside init (%s)" % (rec["variable"], rec["writes"][0]["func"]),
                              nofail=True, correspondence="package-level state of the library is immutable after init", case=rec))
+    # one KNOWN-FINDING line per finding id; the individual confirmations go to the evidence
+    by_id = {}
+    for line in known:
+        kid, _, rest = line.partition(": ")
+        by_id.setdefault(kid, []).append(rest)
+    cov["known_detail"] = {k: v for k, v in by_id.items()}
+    known = []
+    for kid, items in sorted(by_id.items()):
+        st_n = sum(1 for x in items if "[static table]" in x or "package-level" in x)
+        races = [x for x in items if x.startswith("data race")]
+        fails = [x for x in items if x.startswith("[")]
+        parts = []
+        if st_n:
+            parts.append("%d shared field(s) without a common lock in the regenerated lock table" % st_n)
+        if races:
+            parts.append("%d distinct race pair(s) under -race, e.g. %s" % (len(races), re.sub(r" \[reproduced.*", "", races[0])[10:]))
+        if fails:
+            parts.append("%d failure class(es), e.g. %s" % (len(fails), re.sub(r" \[reproduced.*", "", fails[0])[:110]))
+        known.append("%s re-confirmed: %s" % (kid, "; ".join(parts)))
+    for k in ks:
+        if k["id"] not in by_id:
+            cov.setdefault("known_not_reproduced", []).append(k["id"])
     lt = cov.get("lock_table", {})
     cov.update(dict(
         distinct_nontrivial=lt.get("locations", 0) + cov.get("dynamic", {}).get("processes", 0),
